@@ -933,6 +933,59 @@ var mutators = map[string]mutator{
 		a.Reference, b.Reference = b.Name, a.Name
 		return &Mutation{Kind: "reference_cycle", Where: a.Name + "," + b.Name, Expect: "any"}
 	},
+	// ---- valid features whose generators used to crash (repaired): accepted designs, sent
+	// through generator.Generate like every accepted design of this stream ----
+	// a map keyed by an array, MapOf(ArrayOf(String), T), in a payload / result / user type
+	"feature_map_array_key": func(d *dg.Design, r *vh.RNG) *Mutation {
+		x, ok := pickM(r, methods(d, func(_ *dg.Service, m *dg.Method) bool {
+			return m.HTTP != nil && m.Payload != nil && m.Payload.T.Kind == "object" && len(m.Payload.T.Attrs) > 0
+		}))
+		if !ok {
+			return nil
+		}
+		key := dg.A(dg.ArrayOf(dg.A(dg.Prim(vh.Pick(r, []string{"String", "Int", "Boolean"})))))
+		val := dg.A(dg.Prim(vh.Pick(r, []string{"String", "Int", "Float64"})))
+		f := dg.F("by_list", dg.MapOf(key, val))
+		where2 := "payload"
+		switch r.Intn(3) {
+		case 0:
+			x.m.Payload.T.Attrs = append(x.m.Payload.T.Attrs, f)
+		case 1:
+			if x.m.Result != nil && x.m.Result.T.Kind == "object" {
+				x.m.Result.T.Attrs = append(x.m.Result.T.Attrs, f)
+				where2 = "result"
+			} else {
+				x.m.Payload.T.Attrs = append(x.m.Payload.T.Attrs, f)
+			}
+		default:
+			t := firstObjType(d)
+			if t == nil {
+				return nil
+			}
+			t.Base.Attrs = append(t.Base.Attrs, f)
+			x.m.Payload.T.Attrs = append(x.m.Payload.T.Attrs, dg.F("holder", dg.Ref(t.Name)))
+			where2 = "type " + t.Name
+		}
+		return &Mutation{Kind: "feature_map_array_key", Where: where(x) + " " + where2, Covered: true, Expect: "accept"}
+	},
+	// Enum(1, 2, 3) on the elements of an array of Int32 / Int64 / UInt / UInt32 / UInt64
+	"feature_sized_int_enum": func(d *dg.Design, r *vh.RNG) *Mutation {
+		x, ok := pickM(r, methods(d, func(_ *dg.Service, m *dg.Method) bool {
+			return m.HTTP != nil && m.Payload != nil && m.Payload.T.Kind == "object" && len(m.Payload.T.Attrs) > 0
+		}))
+		if !ok {
+			return nil
+		}
+		el := dg.A(dg.Prim(vh.Pick(r, []string{"Int32", "Int64", "UInt", "UInt32", "UInt64"})))
+		el.V = &dg.Validation{Enum: []any{1, 2, 3}}
+		f := dg.F("levels", dg.ArrayOf(el))
+		if r.Bool() && x.m.Result != nil && x.m.Result.T.Kind == "object" {
+			x.m.Result.T.Attrs = append(x.m.Result.T.Attrs, f)
+		} else {
+			x.m.Payload.T.Attrs = append(x.m.Payload.T.Attrs, f)
+		}
+		return &Mutation{Kind: "feature_sized_int_enum", Where: where(x), Name: el.T.Prim, Covered: true, Expect: "accept"}
+	},
 	// types that extend themselves / each other (used as payload, result or error type):
 	// every traversal over bases carries a visited set
 	"extend_cycle": func(d *dg.Design, r *vh.RNG) *Mutation {
@@ -1035,6 +1088,9 @@ func mutatorNames() []string {
 // nearValid draws one design and applies one mutation (or none).
 func nearValid(r *vh.RNG, idx int) (*dg.Design, *Mutation) {
 	opts := dg.DefaultOptions()
+	// Enum(1, 2, 3) on elements of sized / unsigned integer arrays used to panic in example
+	// generation (repaired): part of the ordinary envelope of this stream
+	opts.UintEnums = true
 	if r.Chance(2, 3) {
 		// single mutations do not need big designs; small ones keep the Coq terms small
 		opts.MaxServices, opts.MaxMethods = 1, 2
